@@ -64,32 +64,32 @@ theorem fact_lang_eq (terms : List Sym) (U G : Prods Sym) (S : List Sym) (smart 
 /-- **Exactness**: if `is_ambiguous()` is False, `parse` accepts a text iff its token list is a
 sentence of the *user's* grammar.  (Hypotheses on the input as in `C01.parse_valid`.) -/
 theorem exact (inp : CtorIn) (P : Parser) (hP : construct inp = .ok P)
-    (hrhs : NoDunderRhs inp.prods) (hstart : inp.start ∈ inp.prods.map (·.1))
+    (hstart : inp.start ∈ inp.prods.map (·.1))
     (hamb : isAmbiguous P.table = false) (raw : List (List Char × List Char))
     (hEnd : ∀ tok ∈ (P.tokens raw).dropLast, tok.name ≠ endSym) :
     (∃ fuel t, P.parse raw fuel = .ok t) ↔
       InLang P.terminals P.userProds P.start (P.tokens raw).dropLast := by
   have hB := construct_built hP
-  obtain ⟨hD, hnd⟩ := factRelD_of_built hB hrhs
-  exact exact_of_built hB hD hnd hamb (start_user_of_built hB hrhs hstart) raw hEnd
+  obtain ⟨hD, hnd⟩ := factRelD_of_built hB
+  exact exact_of_built hB hD hnd hamb (start_user_of_built hB hstart) raw hEnd
 
 /-- **Every non-sentence raises `ParsingError`** (ambiguous table or not): for all sufficiently
 large fuel the answer is `ParsingError` — never a tree, never a loop, never another error. -/
 theorem reject_raises (inp : CtorIn) (P : Parser) (hP : construct inp = .ok P)
-    (hrhs : NoDunderRhs inp.prods) (hstart : inp.start ∈ inp.prods.map (·.1))
+    (hstart : inp.start ∈ inp.prods.map (·.1))
     (raw : List (List Char × List Char))
     (hEnd : ∀ tok ∈ (P.tokens raw).dropLast, tok.name ≠ endSym)
     (hnot : ¬ InLang P.terminals P.userProds P.start (P.tokens raw).dropLast) :
     ∃ k, ∀ fuel, k ≤ fuel → P.parse raw fuel = .error .parsingError := by
   have hB := construct_built hP
-  obtain ⟨hD, hnd⟩ := factRelD_of_built hB hrhs
-  exact reject_of_built hB hD hnd (start_user_of_built hB hrhs hstart) raw hEnd hnot
+  obtain ⟨hD, hnd⟩ := factRelD_of_built hB
+  exact reject_of_built hB hD hnd (start_user_of_built hB hstart) raw hEnd hnot
 
 /-- **Identically for both `smart_factorization` settings**: two parsers built from the same
 arguments except `smart_factorization`, both reporting no ambiguity, accept the same texts. -/
 theorem smart_indep (inp : CtorIn) (P1 P2 : Parser)
     (h1 : construct { inp with smart := true } = .ok P1) (h2 : construct { inp with smart := false } = .ok P2)
-    (hrhs : NoDunderRhs inp.prods) (hstart : inp.start ∈ inp.prods.map (·.1))
+    (hstart : inp.start ∈ inp.prods.map (·.1))
     (ha1 : isAmbiguous P1.table = false) (ha2 : isAmbiguous P2.table = false)
     (raw : List (List Char × List Char))
     (hEnd : ∀ tok ∈ (P1.tokens raw).dropLast, tok.name ≠ endSym) :
@@ -112,7 +112,7 @@ theorem smart_indep (inp : CtorIn) (P1 P2 : Parser)
     have er : P1.rename = P2.rename := by
       funext r; simp [Parser.rename, b1.hsyn, b2.hsyn, b1.hkw, b2.hkw]
     simp [Parser.tokens, er, esk]
-  rw [exact _ P1 h1 hrhs hstart ha1 raw hEnd, exact _ P2 h2 hrhs hstart ha2 raw (etok ▸ hEnd),
+  rw [exact _ P1 h1 hstart ha1 raw hEnd, exact _ P2 h2 hstart ha2 raw (etok ▸ hEnd),
     eU, eT, eS, etok]
 
 /-- **LL(1)-as-written ⟹ not ambiguous — partial.**
